@@ -124,6 +124,7 @@ rb_iterate(rb_iter_mode mode)
 {
     rb_iter it;
     size_t n = 0;
+    memset(&it, 0xa5, sizeof it);     /* whatever an earlier, abandoned traversal may have left in the object */
     switch (rbtype) {
     case 0: octet_ring_iter(&it, &r0, mode); break;
     case 1: ring8_iter(&it, &r1, mode); break;
@@ -134,7 +135,8 @@ rb_iterate(rb_iter_mode mode)
         unsigned long v = RB_DISPATCH(octet_ring_inspect(&r0, &it), ring8_inspect(&r1, &it),
                                       ring16_inspect(&r2, &it), ring32_inspect(&r3, &it));
         printf("%s%lu", n ? "," : "", v);
-        if (++n > 100000) { printf(",runaway"); break; }
+        /* more steps than the buffer has slots: the iterator runs away (its step count is not the queue's size) */
+        if (++n > 2 * RB_DISPATCH(r0.datasize, r1.datasize, r2.datasize, r3.datasize) + 8) { printf(",runaway"); break; }
     }
     if (n == 0) putchar('-');
 }
